@@ -4,7 +4,7 @@ Sessions sizeof(kw); build_stream(v) at an offset; parse_stream(bytes + trailing
 C05Total (integer >= 0 or SizeofError, in particular with a referenced key absent) and C05Exact (measured advance = n)
 on the recorded results, and validates the recorded sizeof behaviour against Sem.
 """
-from .. import ast as A, gen, values as V, campaign, tlc
+from .. import ast as A, gen, values as V, campaign, tlc, speccode
 from . import common
 
 LEVEL = "model_checking"
@@ -53,6 +53,21 @@ def run(ctx):
             camp.sh.maybe_flush()
             if i < 3:
                 ctx.sample({"program": prog, "kw": kw})
+        # spec -> code: sizeof against the builds and parses of the sessions TLC explores on the model's universe (design level:
+        # theorems Z-total / Z-exact of MC_CAM; negative control: the known hole of the sizing wrappers over StopIf)
+        speccode.negative_control(ctx)
+        uprogs, ukw, sessions, _ = speccode.explore(ctx, focus="all", part=speccode.part_of(ctx, 8 if quick else 16))
+        def on(camp, prog, con, s, idx):
+            if not idx["build"]:
+                return
+            iz, z = camp.sizeof(prog, con, ukw)
+            camp.sh.session("C05.total", [iz])
+            camp.sh.session("C05.exact", [iz, idx["build"]])
+            b = idx["calls"]["build"]
+            if b["res"]["ok"]:
+                ip, p = camp.parse(prog, con, b"\xee" + bytes(b["res"]["v"]["b"]) + b"\xff\x00", 1, ukw)
+                camp.sh.session("C05.exact", [iz, ip])
+        speccode.drive(camp, uprogs, ukw, sessions, on)
         vs = camp.validate()
         def conf(v, m):
             # the recorded sizeof behaviour must be the specified one (value or failure)
